@@ -1796,6 +1796,12 @@ class BaseEvolutionOperations(object):
                 cursor.close()
 
             for index_name, info in six.iteritems(constraints):
+                if not (info.get('index') or info.get('unique')):
+                    # This is a primary key, foreign key or check
+                    # constraint. It's not an index, and must not be
+                    # found (or dropped) as one.
+                    continue
+
                 results[index_name] = {
                     'unique': info.get('unique', False),
                     'columns': info.get('columns', []),
